@@ -83,10 +83,9 @@ int main(int argc, char **argv) {
     for (char *op = strtok(script, " "); op; op = strtok(NULL, " ")) {
       switch (op[0]) {
         case 'S': ts_lexer_start(&lx); break;
-        // at EOF with a chunk still set (possible after get_column at EOF) ts_lexer__advance would read
-        // included_ranges[count]: out of contract, the script skips the call (so does the Lean driver)
-        case 'A': if (!(lx.data.eof(&lx.data) && lx.chunk)) lx.data.advance(&lx.data, false); break;
-        case 'K': if (!(lx.data.eof(&lx.data) && lx.chunk)) lx.data.advance(&lx.data, true); break;
+        // (advance at EOF with a chunk still held - possible after get_column at EOF - is a no-op since /repo 5e58eb0)
+        case 'A': lx.data.advance(&lx.data, false); break;
+        case 'K': lx.data.advance(&lx.data, true); break;
         case 'M': lx.data.mark_end(&lx.data); break;
         case 'F': ts_lexer_finish(&lx, &la_end); break;
         case 'I': ts_lexer_set_input(&lx, in); break;
